@@ -42,6 +42,10 @@ pub trait Hist: Send {
     fn iter_skip(&self, k: usize) -> Vec<((f64, f64), u64)>;
     fn iter_step_by(&self, k: usize) -> Vec<((f64, f64), u64)>;
     fn iter_count_last(&self) -> (usize, Option<((f64, f64), u64)>);
+    /// iterator-protocol probe of iter(), widths(), centers(), normalized_bins(), variances()
+    fn iter_protocol(&self, j: usize, k: usize) -> Result<(), String>;
+    /// variances()[i] read through nth / skip / step_by / last instead of plain iteration
+    fn variances_via(&self, i: usize) -> Vec<(&'static str, Option<f64>)>;
     fn widths(&self) -> Vec<f64>;
     fn centers(&self) -> Vec<f64>;
     fn normalized_bins(&self) -> Vec<f64>;
@@ -49,8 +53,90 @@ pub trait Hist: Send {
     fn variances(&self) -> Vec<f64>;
     fn debug(&self) -> String;
     fn to_json(&self) -> String;
+    fn to_blob(&self, m: u8) -> String;
     fn from_json_same(&self, s: &str) -> Result<Box<dyn Hist>, String>;
     fn as_any(&self) -> &dyn std::any::Any;
+}
+
+pub fn f64_eq(a: &f64, b: &f64) -> bool {
+    a.to_bits() == b.to_bits() || (a.is_nan() && b.is_nan())
+}
+
+pub fn item_eq(a: &((f64, f64), u64), b: &((f64, f64), u64)) -> bool {
+    f64_eq(&(a.0).0, &(b.0).0) && f64_eq(&(a.0).1, &(b.0).1) && a.1 == b.1
+}
+
+/// Every way of draining one of the crate's iterators must agree with plain `next()` calls:
+/// count / last / nth / skip / step_by / fold / size_hint on a fresh iterator, on one that has
+/// already yielded `j` items, and on an exhausted one.
+pub fn protocol_probe<T: Copy + std::fmt::Debug, I: Iterator<Item = T>>(what: &str, mk: impl Fn() -> I, j: usize, k: usize, eq: fn(&T, &T) -> bool) -> Result<(), String> {
+    let mut all: Vec<T> = vec![];
+    let mut it = mk();
+    while let Some(x) = it.next() {
+        all.push(x);
+        if all.len() > 100_000 {
+            return Err(format!("{}: does not terminate", what));
+        }
+    }
+    if it.next().is_some() || it.count() != 0 {
+        return Err(format!("{}: an exhausted iterator yields more items", what));
+    }
+    let n = all.len();
+    let j = if n == 0 { 0 } else { j % (n + 1) };
+    let k = k.max(1);
+    let same = |a: &[T], b: &[T]| a.len() == b.len() && a.iter().zip(b.iter()).all(|(x, y)| eq(x, y));
+    let opt_same = |a: Option<T>, b: Option<T>| match (a, b) {
+        (Some(x), Some(y)) => eq(&x, &y),
+        (None, None) => true,
+        _ => false,
+    };
+    // an iterator that has already yielded j items
+    let advanced = || {
+        let mut it = mk();
+        for _ in 0..j {
+            it.next();
+        }
+        it
+    };
+    let (lo, hi) = advanced().size_hint();
+    if lo > n - j || hi.map_or(false, |h| h < n - j) {
+        return Err(format!("{}: size_hint() = ({}, {:?}) after {} of {} items", what, lo, hi, j, n));
+    }
+    let c = advanced().count();
+    if c != n - j {
+        return Err(format!("{}: count() = {} after {} of {} items were taken", what, c, j, n));
+    }
+    if !opt_same(advanced().last(), if j < n { all.last().copied() } else { None }) {
+        return Err(format!("{}: last() after {} of {} items", what, j, n));
+    }
+    let mut it = advanced();
+    let got = it.nth(k - 1);
+    if !opt_same(got, all.get(j + k - 1).copied()) {
+        return Err(format!("{}: nth({}) after {} items = {:?} expected {:?}", what, k - 1, j, got, all.get(j + k - 1)));
+    }
+    let rest: Vec<T> = it.collect();
+    if !same(&rest, &all[(j + k).min(n)..]) {
+        return Err(format!("{}: items after nth({}) differ from plain iteration", what, k - 1));
+    }
+    let sk: Vec<T> = mk().skip(j).collect();
+    if !same(&sk, &all[j..]) {
+        return Err(format!("{}: skip({}) differs from plain iteration", what, j));
+    }
+    let stepped: Vec<T> = mk().step_by(k).collect();
+    let want: Vec<T> = all.iter().copied().step_by(k).collect();
+    if !same(&stepped, &want) {
+        return Err(format!("{}: step_by({}) = {:?} expected {:?}", what, k, stepped, want));
+    }
+    let folded = advanced().fold(0usize, |a, _| a + 1);
+    if folded != n - j {
+        return Err(format!("{}: fold visits {} items after {} of {} were taken", what, folded, j, n));
+    }
+    let mut pk = mk().peekable();
+    let _ = pk.peek();
+    if pk.count() != n {
+        return Err(format!("{}: peekable().count() != {}", what, n));
+    }
+    Ok(())
 }
 
 macro_rules! hist_impl {
@@ -120,6 +206,21 @@ macro_rules! hist_impl {
             fn iter_count_last(&self) -> (usize, Option<((f64, f64), u64)>) {
                 (self.iter().count(), self.iter().last())
             }
+            fn iter_protocol(&self, j: usize, k: usize) -> Result<(), String> {
+                protocol_probe("iter()", || self.iter(), j, k, item_eq)?;
+                protocol_probe("widths()", || HistTrait::widths(self), j, k, f64_eq)?;
+                protocol_probe("centers()", || HistTrait::centers(self), j, k, f64_eq)?;
+                protocol_probe("normalized_bins()", || HistTrait::normalized_bins(self), j, k, f64_eq)?;
+                protocol_probe("variances()", || HistTrait::variances(self), j, k, f64_eq)
+            }
+            fn variances_via(&self, i: usize) -> Vec<(&'static str, Option<f64>)> {
+                vec![
+                    ("variances().nth(i)", HistTrait::variances(self).nth(i)),
+                    ("variances().skip(i).next()", HistTrait::variances(self).skip(i).next()),
+                    ("variances().step_by(i+1).nth(1)", HistTrait::variances(self).step_by(i + 1).nth(1)),
+                    ("variances().take(i+1).last()", HistTrait::variances(self).take(i + 1).last()),
+                ]
+            }
             fn widths(&self) -> Vec<f64> {
                 HistTrait::widths(self).collect()
             }
@@ -141,8 +242,11 @@ macro_rules! hist_impl {
             fn to_json(&self) -> String {
                 serde_json::to_string(self).expect("serialize")
             }
+            fn to_blob(&self, m: u8) -> String {
+                crate::medium::encode(self, m).unwrap_or_else(|_| Hist::to_json(self))
+            }
             fn from_json_same(&self, s: &str) -> Result<Box<dyn Hist>, String> {
-                serde_json::from_str::<$m::Histogram>(s).map(|h| Box::new(h) as Box<dyn Hist>).map_err(|e| e.to_string())
+                crate::medium::decode::<$m::Histogram>(s).map(|h| Box::new(h) as Box<dyn Hist>)
             }
             fn as_any(&self) -> &dyn std::any::Any {
                 self
@@ -211,7 +315,7 @@ pub fn with_const_width(len: usize, a: f64, b: f64) -> Box<dyn Hist> {
 /// macro-generated ones; they have no serde support, so migrate faults are skipped.
 #[cfg(feature = "nightly")]
 pub mod cg {
-    use super::Hist;
+    use super::{f64_eq, item_eq, protocol_probe, Hist};
     use average::histogram_const::{Histogram as CH, InvalidRangeError as CErr};
     use average::{InvalidRangeError, Merge};
 
@@ -282,6 +386,21 @@ pub mod cg {
                 fn iter_count_last(&self) -> (usize, Option<((f64, f64), u64)>) {
                     (self.iter().count(), self.iter().last())
                 }
+                fn iter_protocol(&self, j: usize, k: usize) -> Result<(), String> {
+                    protocol_probe("iter()", || self.iter(), j, k, item_eq)?;
+                    protocol_probe("widths()", || CH::<$n>::widths(self), j, k, f64_eq)?;
+                    protocol_probe("centers()", || CH::<$n>::centers(self), j, k, f64_eq)?;
+                    protocol_probe("normalized_bins()", || CH::<$n>::normalized_bins(self), j, k, f64_eq)?;
+                    protocol_probe("variances()", || CH::<$n>::variances(self), j, k, f64_eq)
+                }
+                fn variances_via(&self, i: usize) -> Vec<(&'static str, Option<f64>)> {
+                    vec![
+                        ("variances().nth(i)", CH::<$n>::variances(self).nth(i)),
+                        ("variances().skip(i).next()", CH::<$n>::variances(self).skip(i).next()),
+                        ("variances().step_by(i+1).nth(1)", CH::<$n>::variances(self).step_by(i + 1).nth(1)),
+                        ("variances().take(i+1).last()", CH::<$n>::variances(self).take(i + 1).last()),
+                    ]
+                }
                 fn widths(&self) -> Vec<f64> {
                     CH::<$n>::widths(self).collect()
                 }
@@ -302,6 +421,9 @@ pub mod cg {
                 }
                 fn to_json(&self) -> String {
                     "null".to_string() // no serde support: treated as a non-checkpointable state
+                }
+                fn to_blob(&self, _m: u8) -> String {
+                    "null".to_string()
                 }
                 fn from_json_same(&self, _s: &str) -> Result<Box<dyn Hist>, String> {
                     Err("const-generic histograms have no serde support".into())
